@@ -44,3 +44,7 @@ def run(ctx, rep):
     check_bpm_value(ctx, r8, T)
     r9 = rep.rule("index", "governing index = last tempo event at or before the tick (guards + scan, C11)", floor=3)
     T.check_index(r9, r9)
+    rch = rep.rule("chain", "file -> lines (read().splitlines(), utf-8-sig) -> framing -> section route -> dispatcher -> builders: every link "
+                            "hands the lines on unchanged", floor=10)
+    from .chain import check_chain
+    check_chain(ctx, rch, "all", strict=False)
